@@ -298,7 +298,7 @@ Fixpoint mi (o : op) (path : list nat) : nat -> mstate -> LS :=
             else if Nat.ltb n e then LPanic 11
             else if starts_with (fun a b => ceq b a) (slice input st e) (skipn p input)
                  then once (p + l) s else LNil s
-      | Some _, Some _ => LNil s
+      | Some _, Some _ => once p s        (* a group that has not participated: the empty string *)
       | _, _ => LPanic 5
       end
   | OCapture g o' => fun p s =>
